@@ -144,6 +144,28 @@ P['c_grandassign'] = prog([('p', [('a', F), ('b', F)],
 P['c_statecls'] = prog([('mkcnt', [('inc', F)], ('lambda', [], B('+', ('self',), V('inc')))),
                         ('dsp', [('a', F)], B('+', ('callv', V('c'), []), a))], globals_=[('c', C('mkcnt', N(0.25)))], globals_last=True)
 
+# a block in expression position has a scope of its own: a `let` inside shadows, it does not overwrite, the outer variable
+P['r_blockscope'] = prog([('dsp', [('a', '(float,float)')], ('let', 'x', a0, ('let', 'y', ('block', ('let', 'x', B('*', a1, N(2)), ('let', 'z', B('+', x, N(1)), B('*', V('z'), x)))),
+                                                                      B('+', x, B('*', y, N(10))))))])
+P['r_blockscope2'] = prog([('dsp', [('a', '(float,float)')], ('let', 'x', a0, ('let', 'y', ('block', ('let', 'w', B('*', a1, N(2)), ('assign', 'x', B('+', x, V('w')), B('+', V('w'), N(1))))),
+                                                                       B('+', x, B('*', y, N(1000))))))])
+# stateful call sites in the arms of `if`: every site owns its cell, only the taken arm's cells advance, sites behind the `if` are
+# not disturbed (conditions are comparison results)
+P['s_ifstate2'] = prog([('cnt', [('x', F)], B('+', ('self',), x)),
+                        ('dsp', [('a', F)], ('let', 'n', C('cnt', N(1)), ('let', 'r', ('if', B('>', a, N(0.5)), C('cnt', N(1)), C('cnt', N(10))),
+                                                                        B('+', B('+', V('r'), B('*', C('cnt', N(100)), N(1))), B('*', V('n'), N(100000))))))])
+P['s_ifnest'] = prog([('cnt', [('x', F)], B('+', ('self',), x)),
+                      ('two', [('x', F)], B('+', C('cnt', x), B('*', C('cnt', B('*', x, N(2))), N(10)))),
+                      ('dsp', [('a', '(float,float)')], ('let', 'n', C('cnt', N(1)),
+                               ('let', 'r', ('if', B('>', a0, N(0.5)), C('two', N(1)), ('if', B('>', a1, N(0.5)), C('cnt', N(5)), N(7))),
+                                B('+', B('+', V('r'), B('*', C('cnt', N(100)), N(1000))), B('*', V('n'), N(1000000))))))])
+P['s_ifmem'] = prog([('dsp', [('a', '(float,float)')], ('let', 'p', ('if', B('>', a0, N(0.5)), ('mem', a1), ('delay', 3, a1, N(2))),
+                                                    B('+', V('p'), B('*', ('mem', a0), N(100)))))])
+# two closures made by the same factory own their captured variable separately
+P['c_twoinst'] = prog([('mkc', [], ('let', 'x', N(0), ('lambda', [('inc', F)], ('let', 'res', x, ('assign', 'x', B('+', x, V('inc')), V('res')))))),
+                       ('dsp', [('a', F)], B('+', ('callv', V('c1'), [a]), B('*', ('callv', V('c2'), [N(1)]), N(100))))],
+                      globals_=[('c1', C('mkc')), ('c2', C('mkc'))], globals_last=True)
+
 # generated argument-passing programs (tools/gen_calls.py): g_000 .. g_047, also rendered to corpus/ga_NNN.mmm for the other checks
 import os as _os
 import sys as _sys
